@@ -184,7 +184,7 @@ pub fn load_keys(name: &str) -> Result<(ProvingKey<Bls12_377>, VerifyingKey<Bls1
 pub fn run(ctx: &Ctx, rec: &mut Rec) {
     let gs = gadgets();
     let mut zrng = rng_for(ctx.seed, P, 999, 0);
-    let zoo = elements_for_gadgets(ctx, &mut zrng, ctx.scale(5, 50));
+    let zoo = elements_for_gadgets(ctx, &mut zrng, ctx.scale(10, 50));
     // gadgets over constant-mode operands have no variable input: the constant is a circuit
     // parameter (an invalid constant encoding is simply not a circuit), nothing to compare
     let gs: Vec<Gadget> = gs.into_iter().filter(|g| !g.name.contains("(constant")).collect();
@@ -309,7 +309,7 @@ pub fn run(ctx: &Ctx, rec: &mut Rec) {
     for nm in names {
         rec.declare_form(&format!("pinned: {nm}"));
     }
-    let n_proofs = ctx.scale(5, 40);
+    let n_proofs = ctx.scale(8, 40);
     par(rec, |w, n, rec| {
         let mut rng = rng_for(ctx.seed, P, w, 3);
         for (ci, nm) in names.iter().enumerate() {
